@@ -113,6 +113,33 @@ def c01_curated():
         rule([H("path", x, z_), H("zseen", z_), H("aseen", x), H("shortcut", x, z_)], Cl("path", x, y), Cl("edge", y, z_)),
         rule(H("shortcut", x, z_), Cl("path", x, z_), Cl("bridge", x, z_)),
         rule(H("zseen", x), Cl("shortcut", x, _))]))
+    # a rule reading a non-last head of a multi-head rule that is written *below* it
+    P.append(Program("reader_before_multihead", [R("src", I), R("c", I, I), R("a", I), R("b", I), R("d", I), R("out", I, I)], [
+        rule(H("out", x, y), Cl("a", x), Cl("c", x, y)),
+        rule(H("d", x), Cl("b", x), Cl("out", x, _)),
+        rule([H("a", x), H("b", x)], Cl("src", x)),
+        rule([H("b", y), H("a", y), H("d", y)], Cl("out", _, y), Cl("src", y))]))
+    P.append(Program("reader_first_recursive_multihead", [R("edge", I, I), R("start", I), R("reach", I), R("used", I, I), R("out", I), R("out2", I, I)], [
+        rule(H("out", x), Cl("reach", x)),
+        rule(H("out2", x, y), Cl("used", x, y), Cl("out", y)),
+        rule([H("reach", y), H("used", x, y)], Cl("reach", x), Cl("edge", x, y)),
+        rule(H("reach", x), Cl("start", x))]))
+    # bodies without any clause; zero-arity relations; bool and tuple columns; destructuring let
+    P.append(Program("no_clause_bodies", [R("r", I, I), R("s", I), R("t", I, I)], [
+        rule(H("r", x, y), For(PV("x"), Rng(C(0), C(3))), Let(PV("y"), Bin("%", Bin("+", x, C(1)), C(3))), If(Bin("!=", x, C(1)))),
+        rule(H("s", x), Let(PV("x"), C(2))),
+        rule(H("t", x, y), Cl("s", x), For(PV("y"), Rng(C(0), x)), Cl("r", y, _)),
+        rule(H("s", y), Cl("t", _, y), If(Bin("<", y, C(2))))]))
+    P.append(Program("zero_arity", [R("e", I, I), R("flag"), R("any_self"), R("p", I)], [
+        rule(H("any_self"), Cl("e", x, x)),
+        rule(H("flag"), Cl("any_self"), Cl("e", C(0), _)),
+        rule(H("p", x), Cl("flag"), Cl("e", x, _)),
+        rule(H("p", y), Cl("p", x), Cl("e", x, y), Cl("any_self"))]))
+    P.append(Program("bool_tuple_cols", [R("b", I, "bool"), R("pr", "(i32, i32)", I), R("o1", I, I), R("o2", "(i32, i32)", "bool")], [
+        rule(H("o1", x, V("q")), Cl("b", x, C(True)), Cl("pr", Pat(PC(None, PV("q"), PW())), x)),
+        rule(H("o1", V("a1"), V("a2")), Cl("pr", V("tp"), _), Let(PC(None, PV("a1"), PV("a2")), V("tp"))),
+        rule(H("o2", Ctor(None, x, y), V("f")), Cl("o1", x, y), Cl("b", y, V("f"))),
+        rule(H("b", x, C(False)), Cl("o2", Pat(PC(None, PV("x"), PW())), C(True)))]))
     P.append(Program("join_repeat_second", [R("foo", I, I), R("bar", I, I), R("r", I, I), R("r2", I, I)], [
         rule(H("r", x, y), Cl("foo", x, y), Cl("bar", y, y)),
         rule(H("r2", x, y), Cl("bar", y, y), Cl("foo", x, y)),
@@ -209,7 +236,7 @@ class RandGen:
             if alt_rel is not None:
                 body[i] = Disj([[cl], [Clause(alt_rel.name, list(cl.args))]])
         heads = []
-        for _h in range(2 if (self.sugar and rng.random() < 0.25) else 1):
+        for _h in range(2 if rng.random() < (0.25 if self.sugar else 0.15) else 1):
             hr = rng.choice(rels)
             hargs = []
             for _j in range(hr.arity):
@@ -312,10 +339,18 @@ def c04_curated():
     P.append(Program("agg_before_join", [R("r", I, I), R("p", I), R("q", I, I), R("h", I, I), R("h2", I, "usize")], [
         rule(H("h", y, m_), Agg(PV("m"), "max", ["v"], "r", [_, V("v")]), Cl("p", y), Cl("q", y, m_)),
         rule(H("h2", y, n), Cl("p", y), Agg(PV("n"), "count", [], "r", [y, _]), Cl("q", y, _), Cl("r", _, y))]))
+    # a destructuring aggregate pattern over a tuple-typed column, joined with a later clause
+    P.append(Program("agg_tuple_pattern", [R("reading", I, "(i32, i32)"), R("sensor", I), R("flagged", I), R("alarm", I, I), R("first", I)], [
+        rule(H("alarm", x, V("v")), Cl("sensor", x), Agg(PC(None, PV("t"), PV("v")), "max", ["r"], "reading", [x, V("r")]), Cl("flagged", V("v"))),
+        rule(H("first", V("t")), Agg(PC(None, PV("t"), PW()), "min", ["r"], "reading", [_, V("r")]), Cl("sensor", V("t")))]))
     P.append(Program("agg_custom_two_args", [R("cand", I, I, I), R("g", I), R("best", I, I), R("best2", I, I)], [
         rule(H("best", x, s_), Cl("g", x), Agg(PV("s"), "wsum", ["b", "a"], "cand", [x, V("a"), V("b")])),
         rule(H("best2", x, s_), Cl("g", x), Agg(PV("s"), "wsum", ["a", "b"], "cand", [V("a"), x, V("b")]))],
         prelude=WSUM_PRELUDE))
+    P.append(Program("neg_expr_args", [R("e", I, I), R("k", I), R("a", I), R("b", I, I)], [
+        rule(H("a", x), Cl("k", x), Neg("e", [Bin("%", Bin("+", x, C(1)), C(3)), x])),
+        rule(H("b", x, y), Cl("e", x, y), Neg("e", [y, Bin("%", Bin("+", x, y), C(3))]), Neg("k", [y])),
+        rule(H("a", y), Cl("b", _, y), Neg("k", [C(0)]))]))
     P.append(Program("agg_mean", [R("e", I, I), R("avg", I, I)], [
         rule(H("avg", x, Bin("*", m_, C(1))), Cl("e", x, _), Agg(PV("m"), "sum", ["y"], "e", [x, y]))]))
     P.append(Program("agg_bound_expr", [R("e", I, I), R("k", I), R("r", I, "usize")], [
@@ -473,7 +508,7 @@ def c06_variants(seed, per_base=6, bases=None):
     import itertools as _it
     rng = random.Random(seed)
     base = [p for p in c01_curated() if p.name in (bases or ("tc", "same_gen", "mutual3", "three_dyn", "join_cond2", "facts_multihead", "two_strata", "empty_rel",
-                                                              "binder_before_join", "binder_first_clause", "join_repeat_second", "consts_repeats", "multihead_side"))]
+                                                              "binder_before_join", "binder_first_clause", "join_repeat_second", "consts_repeats", "multihead_side", "reader_before_multihead", "reader_first_recursive_multihead"))]
     out = []
     adversarial = ["tuple", "before", "res", "timeout", "val", "row", "matching", "changed", "total", "delta", "rel_ind", "selection_tuple", "key", "v", "i"]
     for p in base:
@@ -565,6 +600,13 @@ def c09_variants():
             r.types = ["N" for _t in r.types]
         q.relmap = {r.name: r for r in q.rels}
         out.append(q)
+    # split signature: struct declaration + impl signature with a where clause
+    q = _clone_prog(bases["same_gen"], "same_gen__generic_split", type_params={"N": "i32"})
+    q.sig = "pub struct Prog<N>;\n   impl<N> Prog<N> where N: Clone + Eq + std::hash::Hash;"
+    for r in q.rels:
+        r.types = ["N" for _t in r.types]
+    q.relmap = {r.name: r for r in q.rels}
+    out.append(q)
     # initialised relations in ascent!
     b = bases["tc"]
     q = _clone_prog(b, "tc__init")
